@@ -74,6 +74,7 @@ func main() {
 		unwind     = flag.Int("unwind", 12, "default loop unwinding bound")
 		trace      = flag.Bool("trace", false, "trace")
 		jobs       = flag.Int("jobs", 4, "parallel one-shot solver processes")
+		noLight    = flag.Bool("nolight", false, "disable the light feasibility solver")
 		cross      = flag.Bool("cross", false, "decide every VC with z3-new and cvc5 and require agreement")
 		smtLog     = flag.String("smtlog", "", "write SMT-LIB transcript here")
 		revMaps    = flag.Bool("reversemaps", false, "iterate maps in reverse insertion order")
@@ -81,7 +82,7 @@ func main() {
 		params     multiFlag
 		redirects  multiFlag
 	)
-	flag.IntVar(&pruneAltsAbove, "prune", 5, "ask the solver to prune reference alternatives when a merge has more than this many")
+	flag.IntVar(&pruneAltsAbove, "prune", 12, "ask the solver to prune reference alternatives when a merge has more than this many")
 	flag.Var(&params, "param", "name=int (repeatable)")
 	flag.Var(&redirects, "redirect", "real.Func=pkgpath.Func (repeatable)")
 	flag.Parse()
@@ -185,6 +186,12 @@ func main() {
 	solver.Jobs = *jobs
 	solver.Cross = *cross
 	e := NewEngine(prog, solver)
+	if !*noLight {
+		if ls, err := NewSolver(*solverName, *timeoutMs, nil); err == nil {
+			e.light = ls
+			defer ls.Close()
+		}
+	}
 	e.Unwind = *unwind
 	e.trace = *trace
 	e.params = out.Params
